@@ -2,5 +2,5 @@
    (Z.of_N only so that the type z exists for ocaml/conv.ml.) *)
 From Coq Require Import ZArith.
 Require Import ExtrOcamlBasic.
-Require Import XV.FormsDefs.
-Extraction "extracted/forms_model.ml" build_sax norm wrap chunks orun narrow_ok Z.of_N.
+Require Import XV.FormsDefs XV.FormsIdDefs.
+Extraction "extracted/forms_model.ml" build_sax norm wrap chunks orun narrow_ok build_ids id_lookup Z.of_N.
